@@ -774,11 +774,35 @@ fn c18_type<T: KS + Send + Sync>(out: &mut Out, rng0: &mut Rng, tier: &Tier) {
         if gi % tier.nshards != tier.shard % ngraphs.min(tier.nshards) && tier.nshards <= ngraphs {
             continue;
         }
-        let mut reads = read_set(&mut rng, k);
+        // one graph in six has NO node at all (no read, or only reads shorter than K): iterating it must simply end
+        let empty_graph = gi % 6 == 5;
+        let mut reads = if empty_graph {
+            (0..rng.below(4)).map(|_| (0..rng.below(k)).map(|_| rng.base()).collect()).collect()
+        } else {
+            read_set(&mut rng, k)
+        };
         // make sure some long nodes exist
-        reads.push((0..rng.range(k + 6, 3 * k + 40)).map(|_| rng.base()).collect());
+        if !empty_graph {
+            reads.push((0..rng.range(k + 6, 3 * k + 40)).map(|_| rng.base()).collect());
+        }
         let stranded = rng.chance(1, 2);
         let g = build_graph::<T>(&reads, stranded, 1);
+        if empty_graph {
+            let gref = &g;
+            let r = guard(std::panic::AssertUnwindSafe(move || {
+                let mut n_items = 0usize;
+                let mut it = gref.into_iter();
+                for _ in 0..3 {
+                    if it.next().is_some() {
+                        n_items += 1;
+                    }
+                }
+                n_items + gref.iter_nodes().count() + gref.len()
+            }));
+            out.nt = true;
+            // the number of retained k-mers of a read set without any k-mer (spec: 0) = nodes seen by the iterators
+            out.case("s.k.sort", kv::<T>(vec![b(!stranded), l(vec![])]), opt(r.map(|c| l((0..c).map(|_| l(vec![])).collect()))));
+        }
         let mut all: Vec<V> = Vec::new();
         let mut all_k: Vec<T> = Vec::new();
         for nk in &g {
